@@ -63,7 +63,13 @@ def one_case(case):
     try:
         p = ffi.new(newT, init)
         b = bytes(ffi.buffer(p))
-        res["new"] = dict(bytes=b.hex(), sizeof=ffi.sizeof(p[0]) if case["isptr"] else ffi.sizeof(p))
+        if not case["isptr"]:
+            sz = ffi.sizeof(p)
+        elif ffi.typeof(p).item.kind in ("struct", "union"):
+            sz = ffi.sizeof(p[0])
+        else:
+            sz = ffi.sizeof(ffi.typeof(p).item)
+        res["new"] = dict(bytes=b.hex(), sizeof=sz)
         if case.get("flexlen") is not None:
             # the flexible array of the top-level struct, as cffi exposes it afterwards
             res["new"]["flexlen"] = len(getattr(p, case["flexlen"]))
